@@ -963,3 +963,144 @@ VF_SECTION(bitmap, 8, 8, 120) {
   r.bound = "BitmapImage sizes {0,1,2,7,8,9,16,17}^2: read/write_pixel at {0,1,n-1,n,n+1,2^31,2^32,2^32+1,2^63,SIZE_MAX}^2; clear, invert, invert twice, to_color with/without alpha, construction; "
             "write_row for rows {0,h-1,h,h+1,2^32,SIZE_MAX} x 11 bit counts from a guard-page buffer; copy/move/swap/assign-back between all ordered pairs of 25 states, self-assignment";
 }
+
+// =============================================================================================
+// round 3 - BitmapImage whose ROW byte length straddles 256, 4096, 65536 (class "sizes around internal block sizes")
+namespace {
+
+inline uint64_t bm_mix(uint64_t z) {
+  z += 0x9E3779B97F4A7C15ull;
+  z = (z ^ (z >> 30)) * 0xBF58476D1CE4E5B9ull;
+  z = (z ^ (z >> 27)) * 0x94D049BB133111EBull;
+  return z ^ (z >> 31);
+}
+// aperiodic content: a misplaced row, byte or piece of a row is visible
+BM bm_bigpat(size_t w, size_t h, int salt) {
+  BM m;
+  m.w = w; m.h = h;
+  m.bit.resize(w * h);
+  for (size_t i = 0; i < w * h; i += 64) {
+    uint64_t hs = bm_mix(i + ((uint64_t)salt << 56));
+    for (size_t k = 0; k < 64 && i + k < w * h; k++) m.bit[i + k] = (hs >> k) & 1;
+  }
+  return m;
+}
+string bm_first_diff(const BitmapImage& b, const BM& m) {
+  if (b.get_width() != m.w || b.get_height() != m.h) return vf::fmt("is %zux%zu", b.get_width(), b.get_height());
+  if (b.get_data_size() != m.row_bytes() * m.h) return vf::fmt("has a buffer of %zu bytes", b.get_data_size());
+  const uint8_t* d = (const uint8_t*)b.get_data();
+  for (size_t y = 0; y < m.h; y++)
+    for (size_t x = 0; x < m.w; x++)
+      if (!!(d[y * m.row_bytes() + x / 8] & (0x80 >> (x & 7))) != m.at(x, y)) return vf::fmt("differs from the model first at (%zu,%zu)", x, y);
+  return "";
+}
+
+}  // namespace
+
+VF_SECTION(bigbitmap, 16, 16, 240) {
+  vector<std::pair<size_t, size_t>> sizes;
+  for (size_t B : r.thorough() ? vector<size_t>{256, 1024, 4096, 8192, 65536} : vector<size_t>{256, 4096, 65536})
+    for (size_t W : {8 * B - 8, 8 * B - 7, 8 * B - 1, 8 * B, 8 * B + 1, 8 * B + 9, 16 * B - 1, 16 * B + 1})
+      for (size_t H : {1, 2, 3}) sizes.push_back({W, H});
+  const char* opn[10] = {"clear(false)", "clear(true)", "invert", "invert twice", "to_color(without alpha)", "to_color(with alpha)", "construct", "corner pixels", "write_row of every row", "copies"};
+  for (auto [W, H] : sizes)
+    for (int op = 0; op < 10; op++) {
+      if (!r.take()) continue;
+      r.note(string("BitmapImage ") + opn[op]);
+      auto what = [&, W = W, H = H] { return vf::fmt("%s on a %zux%zu bitmap (%zu bytes per row)", opn[op], W, H, (W + 7) / 8); };
+      if (r.wants_desc()) r.desc(what());
+      r.nontriv();
+      BM pat = bm_bigpat(W, H, 1);
+      size_t rb = pat.row_bytes();
+      string bad;
+      string o = vf::outcome([&, W = W, H = H] {
+        BitmapImage b = bm_make(pat);
+        BM exp = pat;
+        switch (op) {
+          case 0: case 1: b.clear(op == 1); for (auto& v : exp.bit) v = op == 1; break;
+          case 2: b.invert(); for (auto& v : exp.bit) v = !v; break;
+          case 3: {
+            auto before = pat.raw();
+            b.invert(); b.invert();
+            if (memcmp(b.get_data(), before.data(), before.size())) bad = "buffer differs after inverting twice";
+            break;
+          }
+          case 4: case 5: {
+            Image c = b.to_color(0x10203040u, 0xA0B0C0D0u, op == 5);
+            size_t nch = op == 5 ? 4 : 3;
+            if (c.get_width() != W || c.get_height() != H || c.get_has_alpha() != (op == 5) || c.get_channel_width() != 8 || c.get_data_size() != W * H * nch) { bad = "to_color gives an image of another shape"; break; }
+            const uint8_t* d = (const uint8_t*)c.get_data();
+            const uint8_t t[4] = {0xA0, 0xB0, 0xC0, 0xD0}, f[4] = {0x10, 0x20, 0x30, 0x40};
+            for (size_t i = 0; i < W * H && bad.empty(); i++)
+              if (memcmp(d + i * nch, pat.bit[i] ? t : f, nch)) bad = vf::fmt("to_color: pixel (%zu,%zu) has the wrong colour", i % W, i / W);
+            break;
+          }
+          case 6: {
+            BitmapImage fresh(W, H);
+            BM black;
+            black.w = W; black.h = H; black.bit.assign(W * H, 0);
+            string e = bm_first_diff(fresh, black);
+            if (!e.empty()) bad = "a new bitmap " + e;
+            break;
+          }
+          case 7: {
+            const size_t cx[4] = {0, W - 1, 0, W - 1}, cy[4] = {0, 0, H - 1, H - 1};
+            for (int k = 0; k < 4; k++)
+              if (b.read_pixel(cx[k], cy[k]) != pat.at(cx[k], cy[k])) bad = vf::fmt("read_pixel(%zu,%zu) differs from the buffer", cx[k], cy[k]);
+            const size_t ox[4] = {W, 0, W, W - 1}, oy[4] = {0, H, H - 1, H};
+            for (int k = 0; k < 4; k++)
+              if (vf::outcome([&] { b.read_pixel(ox[k], oy[k]); }) != "out_of_range" || vf::outcome([&] { b.write_pixel(ox[k], oy[k], true); }) != "out_of_range")
+                bad = vf::fmt("access at (%zu,%zu) outside the bitmap does not throw out_of_range", ox[k], oy[k]);
+            for (int k = 0; k < 4; k++) {
+              b.write_pixel(cx[k], cy[k], k & 1);
+              exp.bit[cy[k] * W + cx[k]] = k & 1;
+            }
+            break;
+          }
+          case 8: {
+            // every row replaced from a buffer that holds exactly the row (reading more faults), rows taken from another pattern
+            BM other = bm_bigpat(W, H, 2);
+            auto oraw = other.raw();
+            vf::GuardBuf in(rb);
+            for (size_t y = 0; y < H; y++) {
+              memcpy(in.data, oraw.data() + y * rb, rb);
+              b.write_row(H - 1 - y, in.data, W);
+              for (size_t x = 0; x < W; x++) exp.bit[(H - 1 - y) * W + x] = other.at(x, y);
+            }
+            break;
+          }
+          case 9: {
+            auto before = pat.raw();
+            BitmapImage c1(b);
+            BitmapImage c2(9, 2);
+            c2 = b;
+            BitmapImage c3(W, H);
+            c3 = b;
+            BitmapImage c4(std::move(c1));
+            BitmapImage c5;
+            c5 = std::move(c2);
+            for (const BitmapImage* c : {&c3, &c4, &c5}) {
+              string e = bm_first_diff(*c, pat);
+              if (!e.empty() && bad.empty()) bad = "a copy " + e;
+              if (c->get_data() == b.get_data()) bad = "a copy shares the buffer";
+            }
+            c3.invert();
+            c4.clear(true);
+            c5.write_pixel(W - 1, H - 1, !pat.at(W - 1, H - 1));
+            if (memcmp(b.get_data(), before.data(), before.size())) bad = "drawing on the copies changed the original (copies are not deep)";
+            break;
+          }
+        }
+        if (bad.empty()) {
+          string e = bm_first_diff(b, exp);
+          if (!e.empty()) bad = "the bitmap " + e;
+        }
+      });
+      if (o != "ok") r.fail(string("bitmap_") + opn[op] + ":throws", [&] { return what() + " threw " + o; });
+      else if (!bad.empty()) r.fail(string("bitmap_") + opn[op] + ":differs-from-model", [&] { return what() + ": " + bad; });
+      else r.ok("large bitmap operation = model");
+    }
+  r.bound = vf::fmt("BitmapImage widths {8B-8, 8B-7, 8B-1, 8B, 8B+1, 8B+9, 16B-1, 16B+1} for row byte boundaries B in %s x heights {1,2,3} (%zu bitmaps, aperiodic content) x 10 operations: clear x2, invert, invert twice, "
+                    "to_color x2, construction, corner pixel access inside and just outside, write_row of every row from a guard-page buffer, copy/move construction and assignment (deep)",
+      r.thorough() ? "{256,1024,4096,8192,65536}" : "{256,4096,65536}", sizes.size());
+}
